@@ -181,7 +181,24 @@ def searchsorted (cls : List γ) (x : γ) : Nat := (cls.filter (isLtB x)).length
 class_indices = np.searchsorted(classes_, est_classes[indices_est])`. -/
 def classIndices (cls est : List γ) : List Nat := (est.filter (fun c => cls.contains c)).map (searchsorted cls)
 
+/-- `np.argsort(classes)` for pairwise distinct class labels: position `p` holds the index of the
+label with exactly `p` smaller labels. -/
+def rankIs (cls : List γ) (p : Nat) (x : γ) : Bool := searchsorted cls x == p
+def argsortL (cls : List γ) : List Nat := (List.range cls.length).map (fun p => cls.findIdx (rankIs cls p))
+
 end Sklearn
+
+section CostPerm
+variable {γ : Type} [LT γ] [DecidableLT γ] {α : Type} [OfNat α 0]
+
+/-- `SkactivemlClassifier._validate_data`: the user's cost matrix (rows / columns in the order of the
+`classes` parameter) is brought into the order of the sorted `classes_`:
+`class_indices = np.argsort(classes); cost_matrix_ = cost_matrix[class_indices][:, class_indices]`. -/
+def permuteCost (cls : List γ) (C : List (List α)) : List (List α) :=
+  let idx := argsortL cls
+  idx.map (fun a => idx.map (fun b => (C.getD a []).getD b 0))
+
+end CostPerm
 
 section SklearnNum
 variable {α : Type} [Add α] [Mul α] [Div α] [LT α] [DecidableLT α] [OfNat α 0] [OfNat α 1]
